@@ -189,6 +189,9 @@ impl AllocationQueue {
 
     pub fn resume(&mut self) {
         self.state = AllocationQueueState::Active;
+        // If the queue was paused because of too many failures, forget them;
+        // otherwise the queue would be paused again right away.
+        self.rate_limiter.reset_failures();
     }
 
     pub fn manager(&self) -> &ManagerType {
@@ -528,6 +531,12 @@ impl RateLimiter {
             }
             None => RateLimiterStatus::Ok,
         }
+    }
+
+    /// Forget the failures counted so far (the current submission delay is kept).
+    pub fn reset_failures(&mut self) {
+        self.allocation_fails = 0;
+        self.submission_fails = 0;
     }
 
     fn increase_delay(&mut self) {
